@@ -68,6 +68,13 @@ InitNested(heap, vars, x, n, r) ==
         row == Len(h1)
         h2 == Alloc(h1, [n |-> r, kids |-> [i \in 1..r |-> row], live |-> TRUE])
     IN Res(h2, [vars EXCEPT ![x] = Len(h2)], 0)
+\* m := [[0] ** n, [0] ** n, ...] / a dict of r separate lists: r slots holding r DIFFERENT row payloads
+RECURSIVE AllocRows(_, _, _)
+AllocRows(heap, n, r) == IF r = 0 THEN heap ELSE AllocRows(Alloc(heap, [n |-> n, kids |-> <<>>, live |-> TRUE]), n, r - 1)
+InitNestedDistinct(heap, vars, x, n, r) ==
+    LET h1 == AllocRows(heap, n, r)
+        h2 == Alloc(h1, [n |-> r, kids |-> [i \in 1..r |-> Len(heap) + i], live |-> TRUE])
+    IN Res(h2, [vars EXCEPT ![x] = Len(h2)], 0)
 Alias(heap, vars, y, x) == Res(heap, [vars EXCEPT ![y] = vars[x]], 0)
 
 SetIndex(heap, vars, x) ==
@@ -88,13 +95,24 @@ OpAssign(heap, vars, x) ==
         v1 == IF NoDropLhs THEN vars ELSE [vars EXCEPT ![x] = 0]
         m == MakeMut(heap, v1, temps, p)
     IN Res(m[1], [vars EXCEPT ![x] = m[2]], m[3])
+\* x[i] op= v on a nested collection: the drop of the LHS writes null into slot i of the (uniquely
+\* owned) outer payload, so the row's only remaining reference is the value read from it
+OpAssign2(heap, vars, x, i) ==
+    LET m == MakeMut(heap, vars, <<>>, vars[x])
+        v1 == [vars EXCEPT ![x] = m[2]]
+        row == m[1][m[2]].kids[i]
+        hd == IF NoDropLhs THEN m[1] ELSE [m[1] EXCEPT ![m[2]].kids[i] = 0]
+        m2 == MakeMut(hd, v1, <<row>>, row)
+        h3 == [m2[1] EXCEPT ![m[2]].kids[i] = m2[2]]
+    IN Res(h3, v1, m[3] + m2[3])
 Pop(heap, vars, x) == SetIndex(heap, vars, x)
 
-Forms == {"set", "set2", "opassign", "pop"}
+Forms == {"set", "set2", "opassign", "opassign2", "pop"}
 Apply(form, heap, vars, x) ==
     CASE form = "set" -> SetIndex(heap, vars, x)
       [] form = "set2" -> SetIndex2(heap, vars, x, 1)
       [] form = "opassign" -> OpAssign(heap, vars, x)
+      [] form = "opassign2" -> OpAssign2(heap, vars, x, 1)
       [] form = "pop" -> Pop(heap, vars, x)
 IsNested(heap, p) == p # 0 /\ heap[p].kids # <<>>
 =============================================================================
